@@ -3,7 +3,7 @@
    andb/orb to && / ||.  N, positive, nat, Z stay the extracted inductive types. *)
 Require Extraction.
 Require Import ExtrOcamlBasic.
-From PPP Require Import Base.Bytes Std.Utf8 Std.Text Std.Num Std.Ip Model.V2 Model.Builder Model.V1 Model.Auto Model.Ctor Spec.V2Wire Spec.TlvWalk Spec.Encoder Spec.V1Grammar.
+From PPP Require Import Base.Bytes Std.Utf8 Std.Text Std.Num Std.Ip Model.V2 Model.Builder Model.V1 Model.Auto Model.Ctor Model.Digest Spec.V2Wire Spec.TlvWalk Spec.Encoder Spec.V1Grammar.
 Extraction Language OCaml.
 Extraction "model.ml"
   lenN
@@ -15,6 +15,7 @@ Extraction "model.ml"
   p1 p1s addresses_from_str header_from_str h1_protocol addrs_protocol h1_addresses_str h1_to_string h1_to_owned fmt1
   is_incomplete1 is_incomplete1s pa is_incomplete_a is_complete_a
   ip_new v1_of_ip4 v1_of_ip6 v2_of_ip4 v2_of_ip6 new_tcp4 new_tcp6 unix_new v1_of_pair v2_of_pair header1_new type_code
+  d_v1b d_v1s d_v2 d_auto d_tlv
   write_to to_bytes brun z_of_digits item_ok_b item_payload_b
   enc_payload oversize expected_output body in_force payloads wire
   spec_v1 spec_port spec_ip4 spec_ip6
